@@ -1,6 +1,152 @@
 import GrafeoModel.Driver.Proto
-/-! stream `jo` (stub; replaced by its builder) -/
-open Grafeo Grafeo.Proto
+import GrafeoModel.Model.JoinOrder
+/-! stream `jo`: the join-order search (C09). Formats: see `harness/src/jo.rs`. -/
+open Grafeo Grafeo.Proto Grafeo.JoinOrder
 namespace DriverJoinOrder
-def handle (_args : List String) : Option Out := none
+
+def parseEdge (k : Nat) (s : String) : Option Edge :=
+  match s.splitOn ":" with
+  | [a, b] => do
+    let f ← a.toNat?
+    let t ← b.toNat?
+    pure { id := k, frm := f, to := t }
+  | _ => none
+
+def parseEdgesGo : Nat → List String → Option (List Edge)
+  | _, [] => some []
+  | k, s :: rest => do
+    let e ← parseEdge k s
+    let es ← parseEdgesGo (k + 1) rest
+    pure (e :: es)
+
+def parseEdges (s : String) : Option (List Edge) :=
+  if s == "-" then some [] else parseEdgesGo 0 (s.splitOn ",")
+
+structure Args where
+  n : Nat
+  edges : List Edge
+  cards : List Nat
+
+def parseArgs (n e c : String) : Option Args := do
+  let n ← n.toNat?
+  let es ← parseEdges e
+  let cs ← parseNatList c
+  if n > 64 || cs.length != n || es.any (fun e => e.frm ≥ n || e.to ≥ n) then none
+  else pure { n := n, edges := es, cards := cs }
+
+def showCond (e : Edge) : String := toString e.id ++ ":" ++ toString e.frm ++ ">" ++ toString e.to
+
+def showTree : Tree → String
+  | .leaf i => toString i
+  | .join l r cs =>
+    "( " ++ showTree l ++ " " ++ showTree r ++ " " ++ (if cs.isEmpty then "-" else joinWith "," (cs.map showCond)) ++ " )"
+
+def parseCond (s : String) : Option Edge :=
+  match s.splitOn ":" with
+  | [k, ft] =>
+    match ft.splitOn ">" with
+    | [f, t] => do
+      let k ← k.toNat?
+      let f ← f.toNat?
+      let t ← t.toNat?
+      pure { id := k, frm := f, to := t }
+    | _ => none
+  | _ => none
+
+def parseConds (s : String) : Option (List Edge) :=
+  if s == "-" then some [] else (s.splitOn ",").mapM parseCond
+
+def parseTree : Nat → List String → Option (Tree × List String)
+  | 0, _ => none
+  | _, [] => none
+  | fuel + 1, tok :: rest =>
+    if tok == "(" then
+      match parseTree fuel rest with
+      | some (l, r1) =>
+        match parseTree fuel r1 with
+        | some (r, c :: close :: r3) =>
+          if close == ")" then (parseConds c).map (fun cs => (Tree.join l r cs, r3)) else none
+        | _ => none
+      | none => none
+    else tok.toNat?.map (fun i => (Tree.leaf i, rest))
+
+def insertNat (x : Nat) : List Nat → List Nat
+  | [] => [x]
+  | y :: ys => if x ≤ y then x :: y :: ys else y :: insertNat x ys
+
+def sortNat (xs : List Nat) : List Nat := xs.foldr insertNat []
+
+/-- the verdict on a join tree for the conditions `0 .. m-1` over `n` relations -/
+def verdict (n m : Nat) (t : Tree) : String :=
+  let seen := (condsOf t).map (·.id)
+  let missing := (List.range m).filter (fun k => !seen.contains k)
+  let dup := (List.range m).filter (fun k => seen.count k > 1)
+  let piece (name : String) (xs : List Nat) : List String :=
+    if xs.isEmpty then [] else [name ++ ":" ++ natList (sortNat xs)]
+  let out :=
+    (if sortNat (leaves t) == List.range n then [] else ["leaves"])
+      ++ piece "missing" missing ++ piece "dup" dup
+      ++ piece "uncovered" ((uncoveredConds t).map (·.id))
+      ++ piece "flipped" ((flippedConds t).map (·.id))
+  if out.isEmpty then "ok" else joinWith "+" out
+
+def sigOf (t : Tree) (m : Nat) : String :=
+  let seen := (condsOf t).map (·.id)
+  let missing := (List.range m).any (fun k => !seen.contains k)
+  let flipped := !(flippedConds t).isEmpty
+  let other := !(uncoveredConds t).isEmpty
+  let parts := (if missing then ["c09-joinorder:self-cond-dropped"] else [])
+    ++ (if flipped then ["c09-joinorder:cond-flipped"] else [])
+    ++ (if other then ["c09-joinorder:invalid"] else [])
+  if parts.isEmpty then "c09-joinorder:invalid" else joinWith "+" parts
+
+def verdictOut (a : Args) (t : Tree) : Out :=
+  let v := verdict a.n a.edges.length t
+  if v == "ok" then { model := v, spec := "ok" } else { model := v, spec := "ok", sig := sigOf t a.edges.length }
+
+def parseMembers (s : String) (n : Nat) : Option (List (List Nat)) := do
+  let ms ← (s.splitOn ",").mapM (fun m => if m == "-" then some [] else (m.splitOn ".").mapM (fun x => x.toNat?))
+  if ms.length != n || ms.any (fun m => m.any (· > 63)) then none else pure ms
+
+def handle (args : List String) : Option Out :=
+  match args with
+  | ["order", n, e, c] => do
+    let a ← parseArgs n e c
+    match optimize (build a.n a.edges) (costLt a.cards) with
+    | some t => pure { model := showTree t }
+    | none => pure { model := "none" }
+  | ["valid", n, e, c] => do
+    let a ← parseArgs n e c
+    match optimize (build a.n a.edges) (costLt a.cards) with
+    | some t => pure (verdictOut a t)
+    | none => pure { model := "kept" }
+  | "check" :: n :: e :: c :: rest => do
+    let a ← parseArgs n e c
+    let g := build a.n a.edges
+    let expectNone : Bool := a.n = 0 || a.n > maxReordered || (a.n ≥ 2 && !(isConnected g (full a.n)))
+    if rest == ["none"] then
+      pure { model := if expectNone then "kept" else "unexpected-none" }
+    else
+      let (t, left) ← parseTree (rest.length + 1) rest
+      if !left.isEmpty then none
+      else if expectNone then pure { model := "unexpected-tree" }
+      else pure (verdictOut a t)
+  | ["opt", n, e, c] => do
+    let a ← parseArgs n e c
+    if a.n = 0 then none
+    else pure { model := showTree (reorder a.n a.edges (costLt a.cards)) }
+  | ["rows", n, e, c, m] => do
+    let a ← parseArgs n e c
+    if a.n = 0 || a.n > 6 then none
+    else
+      let ms ← parseMembers m a.n
+      let before := rowsWith ms (appliedConds (leftDeep a.n a.edges))
+      let after := rowsWith ms (appliedConds (reorder a.n a.edges (costLt a.cards)))
+      let same := before == after
+      let out := toString before.length ++ "/" ++ toString after.length ++ "/" ++ (if same then "eq" else "ne")
+      let want := toString before.length ++ "/" ++ toString before.length ++ "/eq"
+      if same then pure { model := out, spec := want }
+      else pure { model := out, spec := want, sig := "c09-joinorder:cond-flipped" }
+  | _ => none
+
 end DriverJoinOrder
